@@ -236,6 +236,7 @@ func c14Run(c *lib.Ctx) {
 			}
 		}
 	}
+	c14Processes(c)
 	c.Count("accepted", accepted)
 	c.Count("rejected", rejected)
 	c.Count("accepted_and_changed", cleaned)
@@ -245,7 +246,7 @@ func c14Run(c *lib.Ctx) {
 func init() {
 	lib.Register(&lib.Check{
 		ID: "C14", Level: "model_checking",
-		Rule: "every string of <=3 (quick) / <=4 (thorough) atoms over a 40-atom alphabet (ASCII, all Unicode spaces, controls, metacharacters, invalid UTF-8) plus run-length families atom^n·tail around 250/333/500/1000 bytes, each through ValidateQuery and re-validation; every limit in [-300,300] plus int corners through ValidateLimit; each enumerated string is distinct by construction; non-trivial = rejected, or accepted with an output different from the input",
+		Rule:      "every string of <=3 (quick) / <=4 (thorough) atoms over a 40-atom alphabet (ASCII, all Unicode spaces, controls, metacharacters, invalid UTF-8) plus run-length families atom^n·tail around 250/333/500/1000 bytes, each through ValidateQuery and re-validation; every limit in [-300,300] plus int corners through ValidateLimit; each enumerated string is distinct by construction; non-trivial = rejected, or accepted with an output different from the input",
 		Assume:    []string{"Unicode classes per Go's unicode tables", "acceptance of strings whose only content is invalid UTF-8 bytes is left undecided (either answer accepted)"},
 		QuickSecs: 60, ThorSecs: 600,
 		Run: c14Run,
